@@ -346,7 +346,7 @@ func TestC10(t *testing.T) {
 	if r.Replays() {
 		return
 	}
-	core.Rapid(r, "rerun", r.Pick(700, 20000), genC10, wrap)
+	core.Rapid(r, "rerun", r.Pick(700, 150000), genC10, wrap)
 	genCLI := func(t *rapid.T) c10CLI {
 		var c c10CLI
 		c.W.Ents = []core.Entity{{File: "root.yaml", Subject: []core.RDN{{Key: "CN", Value: "CLI Root"}}},
@@ -389,6 +389,6 @@ func TestC10(t *testing.T) {
 		c.Edit = rapid.Bool().Draw(t, "edit")
 		return c
 	}
-	core.Rapid(r, "cli", r.Pick(120, 1500), genCLI, wrapCLI)
+	core.Rapid(r, "cli", r.Pick(120, 6000), genCLI, wrapCLI)
 	_ = filepath.Join
 }
